@@ -101,8 +101,18 @@ def run_connect(entries, reach, variant, crash_at):
                 proto.makeConnection(transport)
                 connected_kind = kind
                 break
+            # the ways an address can be unreachable: refused, host name
+            # that does not resolve, no route, timed out - varied by position
+            from twisted.internet import error as TE
+            kinds_of_failure = [
+                ConnectionRefusedError('refused'),
+                TE.DNSLookupError('no such host'),
+                TE.NoRouteError('no route'),
+                TE.TCPTimedOutError('timed out'),
+                TE.ConnectError('failed')]
             f.clientConnectionFailed(
-                connector, Failure(ConnectionRefusedError('refused')))
+                connector,
+                Failure(kinds_of_failure[(i + 1) % len(kinds_of_failure)]))
         out['extra_attempts'] = len(r.connectors) - seen
         out['connected'] = connected_kind
         if proto is not None:
